@@ -33,20 +33,28 @@
    find a RoundTrip counterexample - they show the invariant is not vacuous:
      SwapDepClasses      MX_DEPENDENT / MX_INDEPENDENT exchanged in save_model
      ForgetOutputs       db["outputs"] not restored
-     DurDepsOffByOne     symbol indices of the duration dependencies shifted by one     *)
+     DurDepsOffByOne     symbol indices of the duration dependencies shifted by one
+     TruthyOptions       option values compared by truthiness only (SwitchedIsFresh must fail)
+
+   After Load the same program is requested once more under the SIBLING option set (eva <-> evb, the
+   others have none): the cache must not be used, the result is the compile under the new options
+   (SwitchedIsFresh).  This is the part of "for every model and option set" that a single miss/hit
+   pair cannot see.                                                                            *)
 EXTENDS Integers, Sequences, FiniteSets, TLC, Json
 
 CONSTANTS XKinds,        \* kinds for the four attributes of x: subset of {"none","lit","pdep"}
           YKinds,        \* kind used for min/max/nominal of y
           Aliases,       \* subset of {"none","pos","neg"}:  y = 2*x+1 | y = x | y = -x
           Delays,        \* subset of {"none","lit","par","par_lit","par_par2","sum"}
-          Opts,          \* subset of {"base","aliases","rcv","ev"}
+          Opts,          \* subset of {"base","aliases","rcv","ev","eva","evb"}; eva / evb = eliminable_variable_expression
+                         \* r"_a\w*" / r"_b\w*": two option sets that differ only in the VALUE of a non-boolean option
           Typed, Strs, Outs,      \* subsets of BOOLEAN: Integer/Boolean variables, a String parameter, an output
-          SwapDepClasses, ForgetOutputs, DurDepsOffByOne
+          SwapDepClasses, ForgetOutputs, DurDepsOffByOne,
+          TruthyOptions  \* mutation: load_model compares only whether an option is switched on, not its value
 
-VARIABLES prog, phase, model, db, loaded
+VARIABLES prog, phase, model, db, loaded, switched
 
-vars == <<prog, phase, model, db, loaded>>
+vars == <<prog, phase, model, db, loaded, switched>>
 
 Attrs == <<"start", "min", "max", "nominal">>
 Nan == 0 - 1000000            \* numeric stand-in for NaN (TLC cannot compare a string with a number)
@@ -100,6 +108,8 @@ CompileOf(pr) ==
                 \o (IF pr.typed THEN <<Var("k", "alg_states", "int", NoAttrs), Var("f", "alg_states", "bool", NoAttrs)>> ELSE <<>>)
                 \o (IF pr.opt = "ev" THEN <<Var("v[1]", "alg_states", "float", NoAttrs), Var("v[2]", "alg_states", "float", NoAttrs)>>
                                      ELSE <<Var("v", "alg_states", "float", NoAttrs)>>)
+                \o (IF pr.opt = "eva" THEN <<>> ELSE <<Var("_a1", "alg_states", "float", NoAttrs)>>)    \* _a1 = 2*x, eliminated by r"_a\w*"
+                \o (IF pr.opt = "evb" THEN <<>> ELSE <<Var("_b1", "alg_states", "float", NoAttrs)>>)    \* _b1 = 3*x, eliminated by r"_b\w*"
                 \o (IF pr.out THEN <<Var("o", "alg_states", "float", NoAttrs)>> ELSE <<>>)
                 \o (IF pr.opt = "aliases" THEN <<>>        \* d_i = delay(...) is an alias of the delay input and is eliminated
                     ELSE [i \in 1..nd |-> Var(IF i = 1 THEN "d1" ELSE "d2", "alg_states", "float", NoAttrs)])
@@ -159,10 +169,15 @@ LoadOf(d) ==
 
 -----------------------------------------------------------------------------
 Init == /\ prog \in {pr \in Programs : InFamily(pr)}
-        /\ phase = "chosen" /\ model = <<>> /\ db = <<>> /\ loaded = <<>>
+        /\ phase = "chosen" /\ model = <<>> /\ db = <<>> /\ loaded = <<>> /\ switched = <<>>
 
-Compile == phase = "chosen" /\ model' = CompileOf(prog) /\ phase' = "compiled" /\ UNCHANGED <<prog, db, loaded>>
-Save    == phase = "compiled" /\ db' = SaveOf(model) /\ phase' = "saved" /\ UNCHANGED <<prog, model, loaded>>
+Compile == phase = "chosen" /\ model' = CompileOf(prog) /\ phase' = "compiled" /\ UNCHANGED <<prog, db, loaded, switched>>
+Save    == phase = "compiled" /\ db' = SaveOf(model) /\ phase' = "saved" /\ UNCHANGED <<prog, model, loaded, switched>>
+
+(* the options check of load_model (api.py: old_opts != new_opts), reduced to the one non-boolean option *)
+Sibling(o) == IF o = "eva" THEN "evb" ELSE IF o = "evb" THEN "eva" ELSE o
+OptValue(o) == IF o \in {"eva", "evb"} THEN (IF TruthyOptions THEN "on" ELSE o) ELSE o
+SameOptions(o1, o2) == OptValue(o1) = OptValue(o2)
 
 Tags(pr) == {"opt:" \o pr.opt, "alias:" \o pr.alias, "delay:" \o pr.delay, "y:" \o pr.yk}
             \cup (IF pr.typed THEN {"typed"} ELSE {}) \cup (IF pr.str THEN {"string"} ELSE {}) \cup (IF pr.out THEN {"output"} ELSE {})
@@ -172,10 +187,16 @@ Expect == [dep |-> [i \in 1..Len(db.vars) |-> [name |-> db.vars[i].name, cat |->
                                                sure |-> [j \in 1..4 |-> model.vars[i].attrs[j].k # "merged"]]],
            durdeps |-> [i \in 1..Len(db.durdeps) |-> db.durdeps[i]],
            names |-> [i \in 1..Len(db.vars) |-> db.vars[i].name]]
-Load    == /\ phase = "saved" /\ loaded' = LoadOf(db) /\ phase' = "loaded" /\ UNCHANGED <<prog, model, db>>
-           /\ PrintT(<<"PROG", ToJson([prog |-> prog, tags |-> Tags(prog), expect |-> Expect])>>)
+Load    == /\ phase = "saved" /\ loaded' = LoadOf(db) /\ phase' = "loaded" /\ UNCHANGED <<prog, model, db, switched>>
+           /\ PrintT(<<"PROG", ToJson([prog |-> prog, tags |-> Tags(prog), expect |-> Expect, sibling |-> Sibling(prog.opt)])>>)
 
-Next == Compile \/ Save \/ Load
+(* third call: same sources, sibling option set *)
+Switch  == /\ phase = "loaded" /\ Sibling(prog.opt) # prog.opt
+           /\ switched' = IF SameOptions(prog.opt, Sibling(prog.opt)) THEN loaded      \* cache accepted
+                           ELSE CompileOf([prog EXCEPT !.opt = Sibling(prog.opt)])      \* InvalidCacheError -> recompile
+           /\ phase' = "switched" /\ UNCHANGED <<prog, model, db, loaded>>
+
+Next == Compile \/ Save \/ Load \/ Switch
 
 -----------------------------------------------------------------------------
 (* the property on the abstract model *)
@@ -192,7 +213,11 @@ DurValue(d, pv, qv) == IF "nanp" \in DOMAIN d
 SameDurations == /\ Len(loaded.durations) = Len(model.durations)
                  /\ \A i \in 1..Len(model.durations) : \A pv \in ParamValues, qv \in ParamValues :
                         DurValue(loaded.durations[i], pv, qv) = DurValue(model.durations[i], pv, qv)
-RoundTrip == phase = "loaded" =>
+SwitchedIsFresh == phase = "switched" =>
+    LET want == CompileOf([prog EXCEPT !.opt = Sibling(prog.opt)])
+    IN  /\ Len(switched.vars) = Len(want.vars)
+        /\ \A i \in 1..Len(want.vars) : switched.vars[i].name = want.vars[i].name
+RoundTrip == phase \in {"loaded", "switched"} =>
                 /\ SameVars /\ SameAttrValues /\ SameDurations
                 /\ loaded.outputs = model.outputs /\ loaded.ndelay = model.ndelay
                 /\ loaded.strings = model.strings /\ loaded.alias = model.alias
